@@ -465,6 +465,13 @@ pub fn gen_pos(rng: &mut impl rand::RngCore, cap: usize, mark: usize, wide: bool
 }
 
 pub fn gen_history(rng: &mut impl rand::RngCore, depth: usize, len: usize, alpha: Alphabet, persistent: bool, max_removal: usize, bulk_limit: usize) -> Vec<TOp> {
+    gen_history_ex(rng, depth, len, alpha, persistent, max_removal, bulk_limit, false)
+}
+
+/// `pm_shapes`: for the sled-backed backend most leaves+removals batches use the one shape that backend implements
+/// (removals inside the written range, smallest = start); the other shapes are a known finding and end a history at
+/// once, which would otherwise starve everything that comes after them (reopen, later batches) of coverage
+pub fn gen_history_ex(rng: &mut impl rand::RngCore, depth: usize, len: usize, alpha: Alphabet, persistent: bool, max_removal: usize, bulk_limit: usize, pm_shapes: bool) -> Vec<TOp> {
     let cap = 1usize << depth;
     let wide = rng.gen_bool(0.5);
     let mut ops = vec![];
@@ -485,8 +492,10 @@ pub fn gen_history(rng: &mut impl rand::RngCore, depth: usize, len: usize, alpha
                 15..=19 => TOp::Delete(gen_pos(rng, cap, mark, wide, false)),
                 20..=27 => TOp::Append(gen_leaf(rng)),
                 28..=34 => gen_range(rng, cap, mark, wide, bulk_limit),
-                35..=89 => gen_batch(rng, cap, mark, wide, max_removal, bulk_limit),
-                90..=95 => TOp::Init((0..rng.gen_range(0..6usize).min(cap)).map(|_| gen_leaf(rng)).collect()),
+                35..=89 => gen_batch(rng, cap, mark, wide, max_removal, bulk_limit, pm_shapes),
+                90..=94 => TOp::Init((0..rng.gen_range(0..6usize).min(cap)).map(|_| gen_leaf(rng)).collect()),
+                // batch updates must also be right on a tree that was closed and reopened in between
+                95..=97 if persistent => TOp::Reopen,
                 _ => TOp::Reset,
             },
             Alphabet::All => match r {
@@ -494,7 +503,7 @@ pub fn gen_history(rng: &mut impl rand::RngCore, depth: usize, len: usize, alpha
                 20..=34 => TOp::Delete(gen_pos(rng, cap, mark, wide, true)),
                 35..=49 => TOp::Append(gen_leaf(rng)),
                 50..=64 => gen_range(rng, cap, mark, wide, bulk_limit),
-                65..=84 => gen_batch(rng, cap, mark, wide, max_removal, bulk_limit),
+                65..=84 => gen_batch(rng, cap, mark, wide, max_removal, bulk_limit, pm_shapes),
                 85..=87 => TOp::Init((0..rng.gen_range(0..6usize).min(cap)).map(|_| gen_leaf(rng)).collect()),
                 88..=90 => TOp::Reset,
                 91..=93 => TOp::ComputeRoot,
@@ -546,7 +555,7 @@ fn gen_range(rng: &mut impl rand::RngCore, cap: usize, mark: usize, wide: bool, 
     TOp::Range(start, (0..n).map(|_| gen_leaf(rng)).collect())
 }
 
-fn gen_batch(rng: &mut impl rand::RngCore, cap: usize, mark: usize, wide: bool, max_removal: usize, bulk_limit: usize) -> TOp {
+fn gen_batch(rng: &mut impl rand::RngCore, cap: usize, mark: usize, wide: bool, max_removal: usize, bulk_limit: usize, pm_shapes: bool) -> TOp {
     let n = [0usize, 0, 1, 1, 2, 3, 5, 17][rng.gen_range(0..8)];
     let start = match rng.gen_range(0..12) {
         0 => cap.saturating_sub(n),
@@ -588,6 +597,11 @@ fn gen_batch(rng: &mut impl rand::RngCore, cap: usize, mark: usize, wide: bool, 
         8 => vec![cap + rng.gen_range(0..3)],  // beyond capacity
         _ => (0..rng.gen_range(1..5)).map(|_| gen_pos(rng, lim, mark.min(lim), wide, false)).collect(),
     };
+    if pm_shapes && n > 0 && !rm.is_empty() && rng.gen_range(0..100) < 85 {
+        // the shape PmTree implements: removals inside [start, start+n) with the smallest equal to start
+        let k = rng.gen_range(1..=n.min(3));
+        rm = (0..k).map(|j| start + j).collect();
+    }
     if kind != 8 {
         rm.retain(|x| *x <= max_removal);
     } else if max_removal < cap {
